@@ -265,11 +265,9 @@ fn c03_pkt_varint_model_equivalence() {
             assert!(v1 == v2, "same value");
             assert!(r1.len() == r2.len() && r1.as_ptr() == r2.as_ptr(), "same remaining slice");
             kani::cover!(r1.len() == 8 && len == 16);
-            kani::cover!(len == 1);
         }
         (Err(nom::Err::Incomplete(a)), Err(nom::Err::Incomplete(b))) => {
             assert!(a == b, "same number of missing bytes");
-            kani::cover!(len == 0);
             kani::cover!(len == 7);
         }
         _ => panic!("model and real be_varint disagree"),
@@ -294,13 +292,8 @@ fn c03_pkt_type_any_bytes() {
                 assert!(end >= 1, "always consumes");
                 assert!(type_is(ty, r), "type == RFC 9000 §17 reading of first byte + version");
                 assert!(ty.encoding_size() == end);
-                kani::cover!(r == RefTy::Vn && arr[0] == 0x80);
                 kani::cover!(r == RefTy::Vn && arr[0] == 0xff, "VN: the 7 low bits are unused (RFC 8999)");
-                kani::cover!(r == RefTy::V1(0));
-                kani::cover!(r == RefTy::V1(1));
-                kani::cover!(r == RefTy::V1(2));
                 kani::cover!(r == RefTy::V1(3));
-                kani::cover!(r == RefTy::Short(true) && len == 1);
                 kani::cover!(r == RefTy::Short(false) && arr[0] & 0x40 == 0, "short header: fixed bit is not examined");
             }
             Err(_) => panic!("invalid / truncated packet type accepted"),
@@ -310,7 +303,6 @@ fn c03_pkt_type_any_bytes() {
                 Err(RefTyErr::Incomplete(want)) => needed_is(n, want),
                 _ => panic!("Incomplete for a complete type"),
             }
-            kani::cover!(len == 0);
             kani::cover!(len == 4 && arr[0] & 0x80 != 0);
         }
         Err(nom::Err::Error(e)) => {
@@ -320,7 +312,6 @@ fn c03_pkt_type_any_bytes() {
                 _ => panic!("unexpected error variant"),
             }
             kani::cover!(matches!(e, Error::InvalidFixedBit));
-            kani::cover!(matches!(e, Error::UnsupportedVersion(2)));
             kani::cover!(matches!(e, Error::UnsupportedVersion(0xffff_ffff)));
             core::mem::forget(e);
         }
@@ -350,14 +341,12 @@ fn c03_pkt_cid_any_bytes() {
                 cid_is(&cid, &arr, start, l);
                 assert!(cid.encoding_size() == end);
                 kani::cover!(l == 20 && len == 24);
-                kani::cover!(l == 0 && len == 1);
             }
             _ => panic!("over-long / truncated cid accepted"),
         },
         Err(nom::Err::Incomplete(n)) => match reference {
             RefCid::Incomplete(want) => {
                 needed_is(n, want);
-                kani::cover!(len == 0);
                 kani::cover!(want == 20);
             }
             _ => panic!("Incomplete for a complete or over-long cid"),
@@ -368,7 +357,6 @@ fn c03_pkt_cid_any_bytes() {
                 RefCid::TooLarge(at) => {
                     assert!(e.input.len() == len - at, "error input is what follows the length byte");
                     kani::cover!(arr[0] == 21);
-                    kani::cover!(arr[0] == 255 && len == 1);
                 }
                 _ => panic!("TooLarge for a cid length <= 20"),
             }
@@ -388,7 +376,6 @@ fn c03_pkt_cid_any_bytes() {
         }
         Err(nom::Err::Error(e)) => {
             assert!(n > 20 && e.code == nom::error::ErrorKind::TooLarge);
-            kani::cover!(n == 21);
             kani::cover!(n == usize::MAX);
         }
         Err(nom::Err::Failure(_)) => panic!("never Failure"),
@@ -466,7 +453,6 @@ fn long_header_case<const N: usize>(k: u8, arr: &[u8; N], len: usize, cids: RefL
         Err(nom::Err::Incomplete(n)) => match cids {
             RefLong::Incomplete(want) => {
                 needed_is(n, want);
-                kani::cover!(len == 0, "nothing after the version");
                 LongOut::CidErr
             }
             RefLong::TooLarge => panic!("Incomplete for an over-long cid"),
@@ -503,10 +489,10 @@ fn p_header_initial<const N: usize>() {
                     assert!(h.token().len() == tl, "token length == the Token Length varint");
                     assert!(remain == len - ts - tl, "consumes cids + token length + token");
                     let j: usize = kani::any();
-                    kani::assume(j < tl);
-                    assert!(h.token()[j] == arr[ts + j], "token byte j == wire byte");
+                    if j < tl {
+                        assert!(h.token()[j] == arr[ts + j], "token byte j == wire byte");
+                    }
                     kani::cover!(tl == 3 && remain == 0);
-                    kani::cover!(tl == 0 && remain > 0);
                     kani::cover!(ts - q == 2, "token length in a 2-byte varint");
                     core::mem::forget(hdr);
                 }
@@ -520,7 +506,6 @@ fn p_header_initial<const N: usize>() {
                     Some((tl, p)) => (tl - (len - p) as u64) as usize,
                 };
                 assert!(got == want, "Incomplete reports the exact number of missing bytes");
-                kani::cover!(want == 1);
                 kani::cover!(want > 1000, "huge declared token length is just Incomplete");
             }
             LongOut::CidErr => panic!("cids are complete"),
@@ -539,7 +524,6 @@ fn p_header_plain<const N: usize>(k: u8) {
         (RefLong::Cids(_, dl, _, sl, q), LongOut::Ok(hdr, remain)) => {
             assert!(remain == len - q, "consumes exactly the two connection ids");
             kani::cover!(dl == 20 && sl > 0);
-            kani::cover!(dl == 0 && sl == 0 && remain == 0);
             core::mem::forget(hdr);
         }
         (RefLong::Cids(..), _) => panic!("complete header rejected"),
@@ -564,12 +548,12 @@ fn p_header_retry<const N: usize>() {
                     Header::Retry(h) => {
                         assert!(h.token().len() == rest - 16);
                         let j: usize = kani::any();
-                        kani::assume(j < rest - 16);
-                        assert!(h.token()[j] == arr[q + j], "token byte");
+                        if j < rest - 16 {
+                            assert!(h.token()[j] == arr[q + j], "token byte");
+                        }
                         let i: usize = kani::any();
                         kani::assume(i < 16);
                         assert!(h.integrity()[i] == arr[len - 16 + i], "integrity tag == last 16 bytes");
-                        kani::cover!(rest == 16, "empty token");
                         kani::cover!(rest == 19);
                     }
                     _ => panic!("wrong kind"),
@@ -604,11 +588,11 @@ fn p_header_vn<const N: usize>() {
                     Header::VN(h) => {
                         assert!(h.versions().len() == rest / 4);
                         let j: usize = kani::any();
-                        kani::assume(j < rest / 4);
-                        let p = q + 4 * j;
-                        let v = ((arr[p] as u32) << 24) | ((arr[p + 1] as u32) << 16) | ((arr[p + 2] as u32) << 8) | arr[p + 3] as u32;
-                        assert!(h.versions()[j] == v, "version j == big-endian u32 at q + 4j");
-                        kani::cover!(rest == 0, "empty version list");
+                        if j < rest / 4 {
+                            let p = q + 4 * j;
+                            let v = ((arr[p] as u32) << 24) | ((arr[p + 1] as u32) << 16) | ((arr[p + 2] as u32) << 8) | arr[p + 3] as u32;
+                            assert!(h.versions()[j] == v, "version j == big-endian u32 at q + 4j");
+                        }
                         kani::cover!(rest == 8);
                     }
                     _ => panic!("wrong kind"),
@@ -702,7 +686,6 @@ fn c03_pkt_header_one_rtt() {
             cid_is(h.dcid(), &arr, 0, dcid_len);
             assert!(h.spin() == spin);
             kani::cover!(dcid_len == 20);
-            kani::cover!(dcid_len == 0 && len == 0);
         }
         Ok(_) => panic!("short type decoded as a long header"),
         Err(nom::Err::Incomplete(n)) => {
@@ -801,13 +784,11 @@ fn packet_case<const N: usize>(arr: &[u8; N], len: usize, dcid_len: usize, refer
         Ok(Packet::VN(h)) => {
             assert!(reference == RefPkt::Vn);
             assert!(left == 0, "VN: the rest of the datagram is dropped");
-            kani::cover!(true, "VN packet");
             core::mem::forget(h);
         }
         Ok(Packet::Retry(h)) => {
             assert!(reference == RefPkt::Retry);
             assert!(left == 0, "Retry: the rest of the datagram is dropped");
-            kani::cover!(true, "Retry packet");
             core::mem::forget(h);
         }
         Ok(Packet::Data(pkt)) => {
@@ -823,17 +804,13 @@ fn packet_case<const N: usize>(arr: &[u8; N], len: usize, dcid_len: usize, refer
                     cid_is(pkt.dcid(), arr, ds, dl);
                     // contents: the packet is arr[..plen], the rest is arr[plen..len]
                     let j: usize = kani::any();
-                    kani::assume(j < plen);
-                    assert!(pkt.bytes[j] == arr[j], "packet bytes are the datagram's");
+                    if j < plen {
+                        assert!(pkt.bytes[j] == arr[j], "packet bytes are the datagram's");
+                    }
                     let i: usize = kani::any();
-                    kani::assume(i < left);
-                    assert!(datagram[i] == arr[plen + i], "remaining bytes are the datagram's");
-                    kani::cover!(matches!(ty, RefTy::Short(_)), "1-RTT packet");
-                    kani::cover!(ty == RefTy::V1(0), "Initial packet");
-                    kani::cover!(ty == RefTy::V1(1), "0-RTT packet");
-                    kani::cover!(ty == RefTy::V1(2), "Handshake packet");
-                    kani::cover!(ty == RefTy::V1(2) && left > 0, "coalesced: bytes left after a long packet");
-                    kani::cover!(ty == RefTy::V1(0) && off > 9, "Initial with token / cids");
+                    if i < left {
+                        assert!(datagram[i] == arr[plen + i], "remaining bytes are the datagram's");
+                    }
                 }
                 _ => panic!("malformed / truncated packet accepted"),
             }
@@ -852,13 +829,6 @@ fn packet_case<const N: usize>(arr: &[u8; N], len: usize, dcid_len: usize, refer
                 _ => panic!("wrong error kind for this datagram"),
             }
             assert!(left <= len, "an error never grows the datagram (PacketReader clears it)");
-            kani::cover!(matches!(e, Error::IncompleteType(_)));
-            kani::cover!(matches!(e, Error::InvalidFixedBit));
-            kani::cover!(matches!(e, Error::UnsupportedVersion(_)));
-            kani::cover!(matches!(e, Error::IncompleteHeader(Type::Long(_), _)));
-            kani::cover!(matches!(e, Error::IncompleteHeader(Type::Short(_), _)));
-            kani::cover!(matches!(e, Error::UnderSampling(Type::Long(_), 19)));
-            kani::cover!(matches!(e, Error::UnderSampling(Type::Short(_), 0)));
             core::mem::forget(e);
         }
     }
@@ -876,6 +846,13 @@ fn p_packet<const N: usize>() {
     // Version Negotiation datagrams (long form, version 0) with complete cids: c03_pkt_packet_vn
     kani::assume(!is_vn_with_cids(&arr, len));
     packet_case(&arr, len, dcid_len, reference);
+    // witnesses (packet_case has asserted that the real verdict equals `reference`)
+    kani::cover!(matches!(reference, RefPkt::Data(RefTy::Short(_), ..)), "1-RTT packet");
+    kani::cover!(matches!(reference, RefPkt::Data(RefTy::V1(0), _, off, ..) if off > 9), "Initial packet with token / cids");
+    kani::cover!(matches!(reference, RefPkt::Data(RefTy::V1(2), plen, ..) if plen < len), "coalesced: bytes left after a Handshake packet");
+    kani::cover!(reference == RefPkt::Retry, "Retry packet");
+    kani::cover!(matches!(reference, RefPkt::UnderSampling(RefTy::V1(_), 19)), "Length 19: cannot be sampled");
+    kani::cover!(matches!(reference, RefPkt::IncompleteHeader(RefTy::V1(1))), "truncated 0-RTT");
 }
 
 /// Long form, version 0, both connection ids complete and <= 20 bytes: exactly the datagrams for
@@ -891,6 +868,8 @@ fn p_packet_vn<const N: usize>() {
     let reference = ref_packet(&arr, len, 0);
     assert!(matches!(reference, RefPkt::Vn | RefPkt::IncompleteHeader(RefTy::Vn)));
     packet_case(&arr, len, kani::any(), reference);
+    kani::cover!(reference == RefPkt::Vn && len == 15, "VN with two versions");
+    kani::cover!(reference != RefPkt::Vn, "dangling bytes after the last version");
 }
 
 #[kani::proof]
@@ -920,6 +899,110 @@ fn c03_pkt_packet_vn() {
 #[kani::unwind(10)]
 fn c03_pkt_packet_any_bytes_real() {
     p_packet::<40>();
+}
+
+/// C03 be_payload directly (the Length arithmetic of every long data packet), on a real BytesMut:
+/// `remain_len` = number of datagram bytes after the header (what be_packet passes), so the Length
+/// varint sits at `offset = len - remain_len`. Reference (RFC 9000 §17.2): Length(varint) counts the
+/// bytes after it (packet number + payload); the packet is datagram[..offset + |Length| + Length], the
+/// rest is the next coalesced packet; Length < 20 cannot be sampled (UnderSampling); a truncated
+/// varint or fewer bytes than declared is IncompleteHeader.
+fn p_payload<const N: usize>() {
+    let (arr, len) = any_input::<N>();
+    let remain_len: usize = kani::any();
+    kani::assume(remain_len <= len); // be_packet: remain is a suffix of the datagram
+    let at = len - remain_len;
+    let k: u8 = kani::any();
+    kani::assume(k < 3);
+    let pkty = type_of(RefTy::V1(k));
+    let mut datagram = BytesMut::from(&arr[..len]);
+    let r = be_payload(pkty, &mut datagram, remain_len);
+    let left = datagram.len();
+    let reference = match ref_varint(&arr, at, len) {
+        Some((l, p)) if l <= (len - p) as u64 => Some((l as usize, p)),
+        _ => None,
+    };
+    match r {
+        Ok((bytes, offset)) => match reference {
+            Some((l, p)) => {
+                assert!(l >= 20, "payload too short to sample accepted");
+                assert!(offset == p, "returned offset == position after the Length field (the packet number)");
+                assert!(bytes.len() == p + l, "packet == header + Length field + Length bytes");
+                assert!(bytes.len() <= len, "never beyond the datagram");
+                assert!(left == len - (p + l), "what follows the packet stays in the datagram");
+                assert!(left < len, "strictly shrinks");
+                assert!(offset + 20 <= bytes.len(), "pn + sample inside the packet");
+                let j: usize = kani::any();
+                if j < p + l {
+                    assert!(bytes[j] == arr[j], "packet bytes are the datagram's");
+                }
+                let i: usize = kani::any();
+                if i < left {
+                    assert!(datagram[i] == arr[p + l + i], "remaining bytes are the datagram's");
+                }
+                kani::cover!(left > 0 && at > 0, "coalesced packet follows");
+                kani::cover!(p - at == 2 && l == 20, "2-byte Length");
+                core::mem::forget(bytes);
+            }
+            None => panic!("truncated packet accepted"),
+        },
+        Err(e) => {
+            match &e {
+                Error::IncompleteHeader(t, _) => {
+                    assert!(*t == pkty);
+                    assert!(reference.is_none(), "complete packet rejected as incomplete");
+                }
+                Error::UnderSampling(t, n) => {
+                    assert!(*t == pkty);
+                    match reference {
+                        Some((l, _)) => assert!(l < 20 && *n == l, "reported payload size"),
+                        None => panic!("UnderSampling for a truncated packet"),
+                    }
+                }
+                _ => panic!("unexpected error kind"),
+            }
+            assert!(left == len, "an error leaves the datagram untouched");
+            kani::cover!(matches!(e, Error::UnderSampling(_, 19)));
+            kani::cover!(matches!(e, Error::IncompleteHeader(..)) && remain_len > 8, "declared Length exceeds the datagram");
+            core::mem::forget(e);
+        }
+    }
+    core::mem::forget(datagram);
+}
+
+#[kani::proof]
+#[kani::stub(core::slice::index::slice_index_fail, stub_slice_index_fail)]
+#[kani::stub(core::fmt::write, stub_fmt_write)]
+#[kani::stub(crate::varint::be_varint, model_be_varint)]
+#[kani::unwind(6)]
+fn c03_pkt_payload_any_bytes() {
+    p_payload::<40>();
+}
+
+/// thorough: real be_varint
+#[kani::proof]
+#[kani::stub(core::slice::index::slice_index_fail, stub_slice_index_fail)]
+#[kani::stub(core::fmt::write, stub_fmt_write)]
+#[kani::unwind(10)]
+fn c03_pkt_payload_any_bytes_real() {
+    p_payload::<40>();
+}
+
+/// C03 PENDING (suspected genuine defect), cheap concrete-prefix form: the 6-byte datagram
+/// `c0 00 00 00 01 <DCIL>` (Initial, version 1) with DCIL symbolic. DCIL > 20 must be an Err.
+#[kani::proof]
+#[kani::stub(core::slice::index::slice_index_fail, stub_slice_index_fail)]
+#[kani::stub(core::fmt::write, stub_fmt_write)]
+#[kani::unwind(6)]
+fn c03_pkt_packet_dcil_too_large_pending() {
+    let dcil: u8 = kani::any();
+    let arr = [0xc0u8, 0, 0, 0, 1, dcil];
+    let mut datagram = BytesMut::from(&arr[..]);
+    let r = be_packet(&mut datagram, 8);
+    kani::cover!(dcil <= 20, "short cid: IncompleteHeader");
+    assert!(r.is_err(), "truncated or over-long connection id: packet dropped with an error");
+    core::mem::forget(r);
+    core::mem::forget(datagram);
 }
 
 /// C03 PENDING (suspected genuine defect): a long-header packet whose DCIL or SCIL byte is > 20.
@@ -973,7 +1056,6 @@ fn c03_pkt_reader_progress() {
             assert!(reader.raw_bytes.len() < len, "progress");
             assert!(matches!(reference, RefPkt::Vn | RefPkt::Retry | RefPkt::Data(..)));
             kani::cover!(reader.raw_bytes.len() > 0, "more bytes to parse");
-            kani::cover!(reader.raw_bytes.is_empty(), "datagram consumed");
             core::mem::forget(p);
         }
         Some(Err(e)) => {
@@ -1022,13 +1104,11 @@ fn c03_pkt_addr_any_bytes() {
             }
             assert!(ep.encoding_size() == n_addr * one, "encoding_size() agrees with the bytes consumed");
             kani::cover!(v6 && relay != 0 && len == 36);
-            kani::cover!(!v6 && relay == 0 && len == 6);
         }
         Err(nom::Err::Error(e)) => {
             assert!(len < n_addr * one, "complete address rejected");
             assert!(e.code == nom::error::ErrorKind::Eof);
             kani::cover!(relay != 0 && len >= one, "second address truncated");
-            kani::cover!(len == 0);
         }
         Err(_) => panic!("complete parsers: only Error(Eof)"),
     }
@@ -1073,13 +1153,11 @@ fn c03_pkt_reset_token_any_bytes() {
             let j: usize = kani::any();
             kani::assume(j < 16);
             assert!(tok[j] == arr[j]);
-            kani::cover!(len == 16);
             kani::cover!(len == 20);
         }
         Err(nom::Err::Error(e)) => {
             assert!(len < 16 && e.code == nom::error::ErrorKind::Eof && e.input.len() == len);
             kani::cover!(len == 15);
-            kani::cover!(len == 0);
         }
         Err(_) => panic!("only Error(Eof)"),
     }
@@ -1114,7 +1192,6 @@ fn c03_pkt_preferred_address_any_bytes() {
             assert!(tok[j] == arr[25 + cl + j], "reset token follows the cid");
             assert!(pa.encoding_size() == 25 + cl + 16);
             kani::cover!(cl == 20 && len == 61);
-            kani::cover!(cl == 0 && len == 64);
         }
         Err(nom::Err::Incomplete(n)) => {
             // streaming takes: the two addresses and the cid
@@ -1129,7 +1206,6 @@ fn c03_pkt_preferred_address_any_bytes() {
                 assert!(cl <= 20 && len - 25 < cl);
                 needed_is(n, cl - (len - 25));
             }
-            kani::cover!(len == 5);
             kani::cover!(len == 30);
         }
         Err(nom::Err::Error(e)) => {
